@@ -1,5 +1,6 @@
 import CookModel.Lemmas.Collector
 import CookModel.Lemmas.Diag
+import CookModel.Lemmas.DiagComp
 /-
   C07  Diagnostics are sound, complete and placed on the offending construct.
 
@@ -137,5 +138,133 @@ example : numOrRange (α := Rat) false
     [⟨.int, ['2'], 1⟩, ⟨.ws, [' '], 2⟩, ⟨.int, ['1'], 3⟩, ⟨.slash, ['/'], 4⟩, ⟨.int, ['0'], 5⟩] []
     (by simp [Blank, isWsComment]) (by simp) rfl rfl rfl false (Or.inl rfl)).2
 example : u32Max < digitsToNat ['4', '2', '9', '4', '9', '6', '7', '2', '9', '6'] := by decide
+
+/-! ### Completeness in isolation, component level (src/parser/step.rs)
+
+  `Has ev s s'`: the event queue of `s'` is the queue of `s` followed by new events, `ev` among them.
+  `Cut k s mtoks body s1 s2 s3`: from state `s` the marker `k` was consumed, `modifiers()` returned the
+  token run `mtoks` and `comp_body()` returned `body` (name tokens, braces, quantity tokens).
+  The theorems hold for EVERY parser state (any tokens, cursor, extensions, queue). -/
+
+/-- **How a component is read.**  Every successful run of `ingredient` / `cookware` / `timer` cuts the
+    component into pieces (`Cut`, and the note for the first two) WITHOUT pushing any event or touching
+    the tables, and is then the run of the tail (`ingredientTail`, `cookwareTail`, `timerTail`: the rest
+    of the Rust function, verbatim) on those pieces. -/
+theorem C07_component_cut (s s' : BP α) (ev : Ev α) :
+    (ingredientP s = (some ev, s') → ∃ mtoks body note s1 s2 s3 s4,
+      Cut .at s mtoks body s1 s2 s3 ∧ noteP s3 = (note, s4) ∧ Same s s4 ∧
+      ingredientP s = ingredientTail (curOff s) (curOff s4) (curOff s1) (curOff s2) mtoks body note s4) ∧
+    (cookwareP s = (some ev, s') → ∃ mtoks body note s1 s2 s3 s4,
+      Cut .hash s mtoks body s1 s2 s3 ∧ noteP s3 = (note, s4) ∧ Same s s4 ∧
+      cookwareP s = cookwareTail (curOff s) (curOff s4) (curOff s1) (curOff s2) mtoks body note s4) ∧
+    (timerP s = (some ev, s') → ∃ mtoks body s1 s2 s3,
+      Cut .tilde s mtoks body s1 s2 s3 ∧ Same s s3 ∧
+      timerP s = timerTail (curOff s) (curOff s3) (curOff s2) mtoks body s3) := by
+  refine ⟨fun h => ?_, fun h => ?_, fun h => ?_⟩
+  · obtain ⟨mtoks, body, note, s1, s2, s3, s4, hc, hn⟩ := ingredientP_some_cut h
+    exact ⟨mtoks, body, note, s1, s2, s3, s4, hc, hn, hc.same.trans (noteP_same hn), ingredientP_cut hc hn⟩
+  · obtain ⟨mtoks, body, note, s1, s2, s3, s4, hc, hn⟩ := cookwareP_some_cut h
+    exact ⟨mtoks, body, note, s1, s2, s3, s4, hc, hn, hc.same.trans (noteP_same hn), cookwareP_cut hc hn⟩
+  · obtain ⟨mtoks, body, s1, s2, s3, hc⟩ := timerP_some_cut h
+    exact ⟨mtoks, body, s1, s2, s3, hc, hc.same, timerP_cut hc⟩
+
+/-- **Empty name.**  Whenever `ingredient` (resp. `cookware`) returns a component whose name text is
+    blank, the run pushed the error `empty-name:ingredient` (resp. `empty-name:cookware`), severity
+    error, stage parse, whose only label is the span of that name text.
+    Partial: that this label lies inside the component's span is not proved here (it is checked on
+    every run by the planted-construct oracle and by C04 for well-formedness of the span). -/
+theorem C07_empty_name_partial (s s' : BP α) :
+    (∀ i, ingredientP s = (some (.ingredient i), s') → i.val.name.isTextEmpty s.cs = true →
+      Has (.error ⟨.error, .parse, "empty-name:ingredient", [i.val.name.span]⟩) s s') ∧
+    (∀ c, cookwareP s = (some (.cookware c), s') → c.val.name.isTextEmpty s.cs = true →
+      Has (.error ⟨.error, .parse, "empty-name:cookware", [c.val.name.span]⟩) s s') := by
+  constructor
+  · intro i h hb
+    obtain ⟨mtoks, body, note, s1, s2, s3, s4, hc, hn⟩ := ingredientP_some_cut h
+    have q4 : Same s s4 := hc.same.trans (noteP_same hn)
+    have ht := ingredientTail_empty_name (α := α) (curOff s) (curOff s4) (curOff s1) (curOff s2) mtoks body note s4
+    unfold Sat at ht
+    rw [← ingredientP_cut hc hn, h] at ht
+    exact ((ht i rfl).2 (by rw [q4.1]; exact hb)).right q4.grow
+  · intro c h hb
+    obtain ⟨mtoks, body, note, s1, s2, s3, s4, hc, hn⟩ := cookwareP_some_cut h
+    have q4 : Same s s4 := hc.same.trans (noteP_same hn)
+    have ht := cookwareTail_empty_name (α := α) (curOff s) (curOff s4) (curOff s1) (curOff s2) mtoks body note s4
+    unfold Sat at ht
+    rw [← cookwareP_cut hc hn, h] at ht
+    exact ((ht c rfl).2 (by rw [q4.1]; exact hb)).right q4.grow
+
+/-- **Unit on cookware.**  If the braces of a cookware item hold the tokens `qt` and `parse_quantity`
+    on them (run where the parser reaches it: a state `sq` with the same tables and extensions and a
+    longer queue) returns a quantity with a unit, the run pushed the error `cookware-unit` (error,
+    parse) labelled from the `%` separator (or, without separator, the unit's start) to the unit's end.
+    Partial: label-inside-the-component is not proved. -/
+theorem C07_cookware_unit_partial (s s1 s2 s3 s4 : BP α) (mtoks : List Tok) (body : Body) (note : Option Text)
+    (hc : Cut .hash s mtoks body s1 s2 s3) (hn : noteP s3 = (note, s4)) :
+    ∃ sq, Grow s sq ∧ ∀ qt unit, body.quantity = some qt →
+      (parseQuantity (α := α) qt sq).1.quantity.val.unit = some unit →
+      Has (.error ⟨.error, .parse, "cookware-unit", [cookwareUnitSpan (parseQuantity (α := α) qt sq).1 unit]⟩)
+        s (cookwareP s).2 := by
+  have q4 : Same s s4 := hc.same.trans (noteP_same hn)
+  have ht := cookwareTail_unit (α := α) (curOff s) (curOff s4) (curOff s1) (curOff s2) mtoks body note s4
+  unfold Sat at ht
+  rw [← cookwareP_cut hc hn] at ht
+  obtain ⟨sq, gq, h⟩ := ht
+  exact ⟨sq, q4.grow.trans gq, fun qt unit hqt hu => (h qt unit hqt hu).right q4.grow⟩
+
+/-- **Timers.**  For a timer cut into the modifier tokens `mtoks` and the body `body`:
+    * modifiers present ⇒ `modifiers-not-allowed:timer` labelled with the span of the modifier tokens;
+    * (COMPONENT_ALIAS) a `|` among the name tokens, at index `i` ⇒ `alias-not-allowed:timer` labelled
+      from the `|` to the end of the name tokens;
+    * braces with content whose parsed quantity has no unit ⇒ `timer-missing-unit`, labelled with the
+      position right after the value;
+    * no quantity, TIMER_REQUIRES_TIME ⇒ `timer-missing-quantity` labelled with the braces (or the
+      position after the name);
+    * no quantity, not TIMER_REQUIRES_TIME, blank name ⇒ `timer-neither-name-nor-quantity` labelled
+      from the name offset to the closing brace.
+    All are severity error, stage parse.  Partial: label-inside-the-component is not proved. -/
+theorem C07_timer_diagnostics_partial (s s1 s2 s3 : BP α) (mtoks : List Tok) (body : Body)
+    (hc : Cut .tilde s mtoks body s1 s2 s3) :
+    (mtoks.isEmpty = false →
+      Has (.error ⟨.error, .parse, "modifiers-not-allowed:timer", [tokensSpan mtoks]⟩) s (timerP s).2) ∧
+    (∀ i, s.ext.has Gen.EXT_COMPONENT_ALIAS = true → body.name.findIdx? (fun t => t.kind == .or) = some i →
+      Has (.error ⟨.error, .parse, "alias-not-allowed:timer",
+        [⟨((body.name[i]?).getD dummyTok).start,
+          ((body.name.getLast?).getD ((body.name[i]?).getD dummyTok)).stop⟩]⟩) s (timerP s).2) ∧
+    (∃ sq, Grow s sq ∧ ∀ qt, body.quantity = some qt →
+      (parseQuantity (α := α) qt sq).1.quantity.val.unit = none →
+      Has (.error ⟨.error, .parse, "timer-missing-unit",
+        [Span.pos (parseQuantity (α := α) qt sq).1.quantity.val.value.value.span.stop]⟩) s (timerP s).2) ∧
+    (body.quantity = none → s.ext.has Gen.EXT_TIMER_REQUIRES_TIME = true →
+      Has (.error ⟨.error, .parse, "timer-missing-quantity",
+        [body.close.getD (Span.pos (buildText (curOff s2) body.name).span.stop)]⟩) s (timerP s).2) ∧
+    (body.quantity = none → s.ext.has Gen.EXT_TIMER_REQUIRES_TIME = false →
+      (buildText (curOff s2) body.name).isTextEmpty s.cs = true →
+      Has (.error ⟨.error, .parse, "timer-neither-name-nor-quantity", [timerNeitherSpan (curOff s2) body]⟩)
+        s (timerP s).2) := by
+  have q3 : Same s s3 := hc.same
+  have ht := timerTail_spec (α := α) (curOff s) (curOff s3) (curOff s2) mtoks body s3
+  unfold Sat at ht
+  rw [← timerP_cut hc] at ht
+  obtain ⟨h1, h2, ⟨sq, gq, h3⟩, h4, h5⟩ := ht
+  refine ⟨fun h => (h1 h).right q3.grow, fun i he hi => (h2 i (by rw [q3.2.1]; exact he) hi).right q3.grow,
+    ⟨sq, q3.grow.trans gq, fun qt hqt hu => (h3 qt hqt hu).right q3.grow⟩, ?_, ?_⟩
+  · intro hq he
+    exact (h4 hq (by rw [q3.2.1]; exact he)).right q3.grow
+  · intro hq he hb
+    exact (h5 hq (by rw [q3.2.1]; exact he) (by rw [q3.1]; exact hb)).right q3.grow
+
+/-! non-vacuity: `@{}` is an ingredient with a blank name; `~{}` is cut into a body without quantity
+    (no modifiers, no alias), so with every extension off it gets `timer-neither-name-nor-quantity` -/
+def C07_exIngr : BP Rat :=
+  ⟨[⟨.at, ['@'], 0⟩, ⟨.openBrace, ['{'], 1⟩, ⟨.closeBrace, ['}'], 2⟩], 0, ⟨0⟩, toyCharSpec, #[], none⟩
+example : ∃ i s', ingredientP C07_exIngr = (some (.ingredient i), s') ∧
+    i.val.name.isTextEmpty C07_exIngr.cs = true := ⟨_, _, rfl, rfl⟩
+def C07_exTimer : BP Rat :=
+  ⟨[⟨.tilde, ['~'], 0⟩, ⟨.openBrace, ['{'], 1⟩, ⟨.closeBrace, ['}'], 2⟩], 0, ⟨0⟩, toyCharSpec, #[], none⟩
+example : ∃ mtoks body s1 s2 s3, Cut .tilde C07_exTimer mtoks body s1 s2 s3 ∧ body.quantity = none ∧
+    C07_exTimer.ext.has Gen.EXT_TIMER_REQUIRES_TIME = false ∧
+    (buildText (curOff s2) body.name).isTextEmpty C07_exTimer.cs = true :=
+  ⟨_, _, _, _, _, ⟨⟨_, rfl⟩, rfl, rfl⟩, rfl, rfl, rfl⟩
 
 end Cook
